@@ -1302,3 +1302,99 @@ Lemma sibling_param_spellings_refused :
     gen_c18_static_priority = true.
 Proof. vm_compute. reflexivity. Qed.
 
+
+(* ---------- informational responses: the faithful model and the final-status model ---------- *)
+Lemma commit_i_final code u : is_info code = false -> commit_i code u = uw_commit code u.
+Proof. intros H. unfold commit_i. rewrite H. reflexivity. Qed.
+
+Lemma pstep_i_same u o : is_info_op o = false -> pstep_i u o = pstep u o.
+Proof. destruct o; simpl; intros H; try reflexivity. apply commit_i_final. exact H. Qed.
+
+Lemma gstep_i_same c g o : is_info_op o = false -> gstep_i c g o = gstep c g o.
+Proof.
+  destruct o; simpl; intros H; try reflexivity.
+  unfold rf_write_header_i, rf_write_header, gz_write_header_i, gz_write_header.
+  cbn [g_u g_rfw g_should g_gzw g_active g_ws].
+  rewrite !(commit_i_final _ _ H). reflexivity.
+Qed.
+
+Lemma fold_same {S} (f1 f2 : S -> op -> S) (s : list op) :
+  (forall x o, is_info_op o = false -> f1 x o = f2 x o) ->
+  info_free s = true -> forall x, fold_left f1 s x = fold_left f2 s x.
+Proof.
+  intros Hf. unfold info_free. induction s as [|o s IH]; simpl; intros Hs x; [reflexivity|].
+  apply andb_true_iff in Hs as [Ho Hs]. apply negb_true_iff in Ho.
+  rewrite (Hf x o Ho). apply IH. exact Hs.
+Qed.
+
+Lemma run_plain_i_same s : info_free s = true -> run_plain_i s = run_plain s.
+Proof. intros H. unfold run_plain_i, run_plain. apply fold_same; [apply pstep_i_same | exact H]. Qed.
+
+Lemma gzip_serve_i_same dexts cs cfgs path ae s :
+  info_free s = true -> gzip_serve_i dexts cs cfgs path ae s = gzip_serve dexts cs cfgs path ae s.
+Proof.
+  intros H. unfold gzip_serve_i, gzip_serve. rewrite (run_plain_i_same s H).
+  destruct (negb (accepts_gzip ae)); [reflexivity|].
+  destruct (find (req_ok dexts cs path) cfgs) as [c|]; [|reflexivity].
+  unfold run_gz_i, run_gz. f_equal. apply fold_same; [intros x o; apply gstep_i_same | exact H].
+Qed.
+
+(* ---- labelled iff encoded, for every status and every script ---- *)
+Lemma labelled_iff_encoded dexts cs cfgs path ae s :
+  let out := gzip_serve dexts cs cfgs path ae s in
+  (applied out = [] /\ out = run_plain s) \/
+  (applied out = [GZIP] /\ r_ce out = [GZIP] /\ r_cl out = [] /\
+   r_status out = r_status (run_plain s) /\ no_coding (r_ce (run_plain s)) = true /\
+   exists ws, r_segs out = [SG ws] /\ all_plain (r_segs (run_plain s)) = Some (concat ws)).
+Proof.
+  intros out. unfold out.
+  destruct (shape_of s) as (H0 & H0' & oc0 & wr0 & r0 & Hs0).
+  pose proof (plain_of_shape _ _ _ _ _ _ Hs0) as Hp0.
+  destruct (serve_cases dexts cs cfgs path ae s) as [E | (c & H & H1 & H2 & code & wr & _ & _ & Hok & Hp & E)]; rewrite E.
+  - left. split; [|reflexivity]. unfold applied. rewrite Hp0, has_gz_plain. reflexivity.
+  - right. rewrite Hp. unfold r_ce, r_cl. rewrite hdr_gz, hdr_plain, status_gz, status_plain.
+    repeat split; [apply gz_hdr_ce | apply gz_hdr_cl | apply (resp_ok_no_coding _ _ Hok) |].
+    exists wr. split; [reflexivity|].
+    unfold r_segs, closed_plain. simpl u_body. rewrite rev_involutive. apply all_plain_SP.
+Qed.
+
+Lemma not_double_encoded_i dexts cs cfgs path ae s :
+  info_free s = true ->
+  no_coding (r_ce (run_plain_i s)) = false ->
+  gzip_serve_i dexts cs cfgs path ae s = run_plain_i s.
+Proof.
+  intros Hi. rewrite (gzip_serve_i_same dexts cs cfgs path ae s Hi), (run_plain_i_same s Hi).
+  apply not_double_encoded.
+Qed.
+
+Lemma gzip_transparent_i gz gunzip :
+  (forall ws, gunzip (gz ws) = Some (concat ws)) ->
+  forall dexts cs cfgs path ae head s,
+  info_free s = true ->
+  transparent gz gunzip head (gzip_serve_i dexts cs cfgs path ae s) (run_plain_i s).
+Proof.
+  intros Hrt dexts cs cfgs path ae head s Hi.
+  rewrite (gzip_serve_i_same dexts cs cfgs path ae s Hi), (run_plain_i_same s Hi).
+  apply gzip_transparent. exact Hrt.
+Qed.
+
+Lemma labelled_iff_encoded_i dexts cs cfgs path ae s :
+  info_free s = true ->
+  let out := gzip_serve_i dexts cs cfgs path ae s in
+  (applied out = [] /\ out = run_plain_i s) \/
+  (applied out = [GZIP] /\ r_ce out = [GZIP] /\ r_cl out = [] /\
+   r_status out = r_status (run_plain_i s) /\ no_coding (r_ce (run_plain_i s)) = true /\
+   exists ws, r_segs out = [SG ws] /\ all_plain (r_segs (run_plain_i s)) = Some (concat ws)).
+Proof.
+  intros Hi. rewrite (gzip_serve_i_same dexts cs cfgs path ae s Hi), (run_plain_i_same s Hi).
+  apply labelled_iff_encoded.
+Qed.
+
+(* a sibling IS served when one of the table's codings is listed plainly and its file exists *)
+Lemma sibling_served_when_offered prio ae avail n e :
+  In (n, e) prio -> accepted ae n = true -> avail e = true ->
+  exists n' e', select_sibling prio ae avail = Some (n', e').
+Proof.
+  intros Hin Ha Hv. destruct (select_sibling prio ae avail) as [[n' e']|] eqn:E; [exists n', e'; reflexivity|].
+  destruct (select_sibling_none _ _ _ E n e Hin) as [H | H]; congruence.
+Qed.
